@@ -85,7 +85,6 @@ import (
 // Every key is documented in c18ServerNotes and has a probe of the same name.
 var C18KnownIssues = map[string]bool{
 	"policy-zero-value-dropped":           true,
-	"policy-as4-plain-number-clamped":     true,
 	"peer-field-lost/conf.send_community": true,
 }
 
@@ -98,6 +97,7 @@ var c18ServerFixed = map[string]string{
 	"policy-origin-condition-not-listed":                                                     "fix: policy: list the origin condition of a statement",
 	"policy-empty-community-action":                                                          "fix: ListStatement: keep a community action with an empty community list",
 	"policy-med-mod-zero":                                                                    "fix: policy: a MED modification by zero is not listed as 'replace with 0'",
+	"policy-as4-plain-number-clamped":                                                        "fix: a 4-octet AS written as a plain number in an extended community text is not clamped to 65535",
 	"policy-list-statement-community-action-type":                                            "fix: ListStatement: action type of ext-community and large-community actions",
 	"path-link-local-next-hop-dropped":                                                       "fix: AddPath keeps the link-local next hop of MP_REACH_NLRI",
 	"peer-field-lost/graceful_restart.stale_routes_time":                                     "fix: keep graceful_restart.stale_routes_time of a neighbour",
@@ -251,16 +251,17 @@ type c18Set struct {
 	shapes []string
 }
 
-// c18As4 writes a 4-octet AS number the way ExtendedCommunity.String does (asdot), or - rarely - as a plain number.
-func c18As4(s *verifgen.Src, label func(string), shapes *[]string) string {
+// c18As4 writes a 4-octet AS number the way ExtendedCommunity.String does (asdot), or - rarely - as a
+// plain number (asplain); want is the asdot text every List call reports.
+func c18As4(s *verifgen.Src, label func(string)) (in, want string) {
 	as := uint32(65536 + s.Intn(1<<20))
+	want = fmt.Sprintf("%d.%d", as>>16, as&0xffff)
 	if s.Chance(1, 6) {
 		label("as4-text/plain")
-		*shapes = append(*shapes, "policy-as4-plain-number-clamped")
-		return fmt.Sprintf("%d", as)
+		return fmt.Sprintf("%d", as), want
 	}
 	label("as4-text/asdot")
-	return fmt.Sprintf("%d.%d", as>>16, as&0xffff)
+	return want, want
 }
 
 var c18WellKnown = []struct {
@@ -404,6 +405,7 @@ func c18GenSet(s *verifgen.Src, name string, typ api.DefinedType, label func(str
 		kind := s.Intn(5) // one family per set: 0,1 IPv4  2,3 IPv6  4 RT membership
 		for i := 0; i < n; i++ {
 			var p *api.Prefix
+			rtcWant := "" // the listed text of an RT membership prefix when it differs from the written one
 			switch {
 			case kind == 4:
 				as := verifgen.ASN(s)
@@ -414,7 +416,12 @@ func c18GenSet(s *verifgen.Src, name string, typ api.DefinedType, label func(str
 				case 1:
 					rt = fmt.Sprintf("%s:%d", s.V4(), s.U16())
 				default:
-					rt = c18As4(s, label, &ds.shapes) + fmt.Sprintf(":%d", s.U16())
+					in, want := c18As4(s, label)
+					la := s.U16()
+					rt = fmt.Sprintf("%s:%d", in, la)
+					if in != want { // asplain: listed in the asdot form
+						rtcWant = fmt.Sprintf("%d:%s:%d/96", as, want, la)
+					}
 				}
 				p = &api.Prefix{RtcPrefix: fmt.Sprintf("%d:%s/96", as, rt), MaskLengthMin: 96, MaskLengthMax: 96}
 				label("prefix-set/rtc")
@@ -449,6 +456,9 @@ func c18GenSet(s *verifgen.Src, name string, typ api.DefinedType, label func(str
 			}
 			ds.set.Prefixes = append(ds.set.Prefixes, p)
 			key := p.RtcPrefix
+			if rtcWant != "" {
+				key = rtcWant
+			}
 			if p.IpPrefix != "" {
 				key = p.IpPrefix // listed as it was written, host bits included
 			}
@@ -702,8 +712,9 @@ func c18GenStatement(s *verifgen.Src, name string, sets []*c18Set, label func(st
 					v := fmt.Sprintf("%s:%d", s.V4(), s.U16())
 					in, want = "RT:"+v, "rt:"+v
 				case 2:
-					v := c18As4(s, label, &shapes) + fmt.Sprintf(":%d", s.U16())
-					in, want = "soo:"+v, "soo:"+v
+					asIn, asWant := c18As4(s, label)
+					la := s.U16()
+					in, want = fmt.Sprintf("soo:%s:%d", asIn, la), fmt.Sprintf("soo:%s:%d", asWant, la)
 				case 3:
 					v := verifgen.Pick(s, []string{"vxlan", "gre", "mpls", "ip-in-ip", "geneve"})
 					in, want = "encap:"+v, "encap:"+v
@@ -1033,14 +1044,6 @@ func c18FieldShapes(where, field string, want, got *api.Statement) (keys []strin
 	case "actions.local_pref":
 		if a.GetLocalPref().GetValue() == 0 {
 			keys = append(keys, "policy-zero-value-dropped")
-		}
-	case "actions.ext_community":
-		for _, x := range a.GetExtCommunity().GetCommunities() {
-			if strings.HasPrefix(x, "soo:") && !strings.Contains(strings.SplitN(x[4:], ":", 2)[0], ".") {
-				if v := strings.SplitN(x[4:], ":", 2)[0]; len(v) > 5 || len(v) == 5 && v > "65535" {
-					keys = append(keys, "policy-as4-plain-number-clamped")
-				}
-			}
 		}
 	}
 	return keys
@@ -1672,7 +1675,9 @@ var c18ServerProbes = map[string]c18ServerProbe{
 		return c18ProbeStatement(c18Stmt(nil, &api.Actions{Med: &api.MedAction{Type: api.MedAction_TYPE_MOD, Value: 0}}))
 	}},
 	"policy-as4-plain-number-clamped": {"C18_policy", func() ([]c18sFail, *verifkit.Failure) {
-		return c18ProbeStatement(c18Stmt(nil, &api.Actions{ExtCommunity: &api.CommunityAction{Type: api.CommunityAction_TYPE_ADD, Communities: []string{"soo:100000:5"}}}))
+		in, want := c18Stmt(nil, &api.Actions{ExtCommunity: &api.CommunityAction{Type: api.CommunityAction_TYPE_ADD, Communities: []string{"soo:100000:5"}}})
+		want.Actions.ExtCommunity.Communities = []string{"soo:1.34464:5"} // listed in the asdot form
+		return c18ProbeStatement(in, want)
 	}},
 	"policy-list-statement-community-action-type": {"C18_policy", func() ([]c18sFail, *verifkit.Failure) {
 		in, want := c18Stmt(nil, &api.Actions{LargeCommunity: &api.CommunityAction{Type: api.CommunityAction_TYPE_REMOVE, Communities: []string{"65000:1:2"}}})
